@@ -25,7 +25,8 @@ def cfg_text(c, export=False, liveness=False, invariants=True):
     c = dict(c)
     c.setdefault("MaxVitalS", c["MaxVital"])
     for k in ("V7", "TokenMode", "SeqStart", "Sizes", "Senders", "MaxVital", "MaxVitalS", "MaxNV", "MaxConnless",
-              "MaxInFlight", "MaxFaults", "MaxClock", "MaxForge", "MaxDisc", "Reasons", "InitOnline"):
+              "MaxInFlight", "MaxFaults", "MaxClock", "MaxForge", "MaxDisc", "Reasons", "InitOnline",
+              "MaxFails", "FailKs", "MaxResets", "MaxAcceptTok"):
         lines.append("  %s = %s" % (k, s(c[k])))
     lines += ["CONSTRAINT Constr"]
     if not liveness:
@@ -35,7 +36,7 @@ def cfg_text(c, export=False, liveness=False, invariants=True):
     else:
         if invariants and not liveness:
             lines.append("INVARIANTS C01 C04 C02Deadline C03Tokens")
-            lines.append("PROPERTIES C04Refusal C03Inert ChannelSpec")
+            lines.append("PROPERTIES C04Refusal C03Inert C03InertDeliver CallbackLoss ChannelSpec")
         if liveness:
             lines.append("INVARIANTS C02Deadline")
             lines.append("PROPERTIES Progress")
@@ -45,7 +46,7 @@ def cfg_text(c, export=False, liveness=False, invariants=True):
 def base(**kw):
     c = dict(V7=False, TokenMode=True, SeqStart=0, Sizes={1}, Senders={"c"}, MaxVital=1, MaxNV=0,
              MaxConnless=0, MaxInFlight=2, MaxFaults=1, MaxClock=2, MaxForge=0, MaxDisc=0, Reasons={0},
-             InitOnline=False)
+             InitOnline=False, MaxFails=0, FailKs=set(), MaxResets=0, MaxAcceptTok=0)
     c.update(kw)
     return c
 
@@ -261,6 +262,10 @@ CONSTANTS
   MaxDisc = 1000000
   Reasons = {0}
   InitOnline = %(InitOnline)s
+  MaxFails = 1000000
+  FailKs = {1, 2, 3}
+  MaxResets = 1000000
+  MaxAcceptTok = 1000000
 VIEW TraceView
 INVARIANTS C01 C04 C02Deadline C03Tokens
 POSTCONDITION TraceAccepted
@@ -374,7 +379,14 @@ def plans(prop, tier):
               # a side that has a resend request pending sends a compressible (even-sized) chunk itself
               ("v7-rr-compress", B(V7=True, Senders={"c", "s"}, Sizes={40}, MaxVital=2, MaxVitalS=1, MaxNV=0, MaxFaults=1, MaxClock=0)),
               ("v6tok-rr-compress", B(Senders={"c", "s"}, Sizes={40}, MaxVital=2, MaxVitalS=1, MaxNV=0, MaxFaults=1, MaxClock=0))]
-        dr = [(m, "random", 1, 400) for m in ("v6tok", "v6plain", "v7")] + [(m, "repack", 1, 0) for m in ("v6tok", "v7")]
+        # the send callback refuses a datagram (= a lost datagram): connect request, handshake answers, flushes, ticks
+        ex += [("v6tok-cbfail", B(MaxVital=2, MaxFaults=0, MaxClock=1, MaxFails=1, FailKs={1})),
+               ("v7-cbfail", B(V7=True, MaxVital=2, MaxFaults=0, MaxClock=1, MaxFails=1, FailKs={1})),
+               # a zero-length chunk and another chunk in one datagram
+               ("v7-zero", B(V7=True, Sizes={0, 1}, MaxVital=2, MaxNV=1, MaxFaults=0, MaxClock=0)),
+               ("v6tok-zero", B(Sizes={0, 1}, MaxVital=2, MaxNV=1, MaxFaults=0, MaxClock=0))]
+        dr = [(m, "random", 1, 400) for m in ("v6tok", "v6plain", "v7")] + [(m, "repack", 1, 0) for m in ("v6tok", "v7")] + \
+             [(m, "sessions", 3, 300) for m in ("v6tok", "v7")]
         if not q:
             mc += [("v6tok-L", B(Senders={"c", "s"}, MaxVital=1, MaxNV=0, MaxFaults=2, MaxClock=2, MaxInFlight=2)),
                    ("v7-L", B(V7=True, MaxVital=2, MaxNV=1, MaxFaults=2, MaxClock=2)),
@@ -388,8 +400,13 @@ def plans(prop, tier):
                    ("v6tok-3inflight", B(MaxVital=2, MaxFaults=1, MaxClock=1, MaxInFlight=3)),
                    ("v7-sback-clock", B(V7=True, Senders={"c", "s"}, MaxVital=1, MaxVitalS=3, MaxFaults=1, MaxClock=1)),
                    ("v6plain-sback-clock", B(TokenMode=False, Senders={"c", "s"}, MaxVital=1, MaxVitalS=3, MaxFaults=1, MaxClock=1))]
+            mc += [("v6tok-cbfail-L", B(MaxVital=1, MaxNV=1, MaxFaults=1, MaxClock=1, MaxFails=2, FailKs={1})),
+                   ("v7-cbfail-L", B(V7=True, MaxVital=1, MaxNV=1, MaxFaults=1, MaxClock=1, MaxFails=2, FailKs={1}))]
+            ex += [("v6plain-cbfail", B(TokenMode=False, MaxVital=2, MaxFaults=0, MaxClock=1, MaxFails=1, FailKs={1})),
+                   ("v6tok-cbfail2", B(MaxVital=1, MaxFaults=1, MaxClock=1, MaxFails=2, FailKs={1}))]
             dr = [(m, "random", s, 1500) for m in ("v6tok", "v6plain", "v7", "v6wrap", "v7wrap") for s in (1, 2, 3)] + \
-                 [(m, "repack", s, 0) for m in ("v6tok", "v6plain", "v7", "v6wrap") for s in (1, 2)]
+                 [(m, "repack", s, 0) for m in ("v6tok", "v6plain", "v7", "v6wrap") for s in (1, 2)] + \
+                 [(m, "sessions", s, 1200) for m in ("v6tok", "v7") for s in (3, 4)]
     elif prop == "C02":
         live = [("v6tok-live", B(MaxVital=1, MaxFaults=1, MaxClock=1)),
                 ("v7-live", B(V7=True, MaxVital=1, MaxFaults=1, MaxClock=1)),
@@ -401,15 +418,21 @@ def plans(prop, tier):
               # a backlog of unacknowledged chunks that spans the 10-bit wrap (1022, 1023, 0) must be acknowledged
               ("v6tok-wrap-backlog", B(InitOnline=True, SeqStart=1021, MaxVital=3, MaxFaults=0, MaxClock=1)),
               ("v7-wrap-backlog", B(V7=True, InitOnline=True, SeqStart=1021, MaxVital=3, MaxFaults=0, MaxClock=1))]
+        # callbacks fail in the unstable prefix and succeed in the fair suffix: progress all the same
+        live += [("v6tok-live-cbfail", B(MaxVital=1, MaxFaults=0, MaxClock=1, MaxFails=1, FailKs={1})),
+                 ("v7-live-cbfail", B(V7=True, MaxVital=1, MaxFaults=0, MaxClock=1, MaxFails=1, FailKs={1}))]
         dr = [(m, "bigchunks", 1, 0) for m in ("v6tok", "v7")] + [("v7", "random", 1, 400)] + \
-             [(m, "random", 2, 300) for m in ("v6wrap", "v7wrap")]
+             [(m, "random", 2, 300) for m in ("v6wrap", "v7wrap")] + [(m, "cbfail", 1, 0) for m in ("v6tok", "v7")]
         if not q:
             live += [("v6tok-live-L", B(MaxVital=2, MaxNV=1, MaxFaults=1, MaxClock=2)),
                      ("v7-live-L", B(V7=True, MaxVital=2, MaxFaults=1, MaxClock=2))]
             ex += [("v6tok-max-nv", B(Sizes={1, 1023}, MaxVital=2, MaxNV=1, MaxFaults=1, MaxClock=1)),
                    ("v7-max-both", B(V7=True, Sizes={1387}, Senders={"c", "s"}, MaxVital=1, MaxFaults=1, MaxClock=2)),
                    ("v6plain-max", B(TokenMode=False, Sizes={1023}, MaxVital=2, MaxFaults=1, MaxClock=2))]
-            dr = [(m, "bigchunks", 1, 0) for m in ("v6tok", "v6plain", "v7")] + \
+            live += [("v7-live-sessions", B(V7=True, MaxVital=1, MaxFaults=1, MaxClock=0, MaxDisc=1, MaxResets=2))]
+            # a resend that spans three datagrams, the callback refusing the first or the second of them
+            ex += [("v6tok-resend-cbfail", B(InitOnline=True, Sizes={1023}, MaxVital=3, MaxFaults=0, MaxClock=2, MaxFails=2, FailKs={1, 2}, MaxInFlight=2))]
+            dr = [(m, "bigchunks", 1, 0) for m in ("v6tok", "v6plain", "v7")] + [(m, "cbfail", 1, 0) for m in ("v6tok", "v6plain", "v7")] + \
                  [(m, "random", s, 1500) for m in ("v6tok", "v6plain", "v7") for s in (11, 12)]
     elif prop == "C03":
         mc = [("v6tok-forge", B(MaxForge=1, MaxVital=1, MaxFaults=1, MaxClock=1)),
@@ -417,7 +440,12 @@ def plans(prop, tier):
         ex = [("v6tok-forge", B(MaxForge=1, MaxVital=1, MaxFaults=0, MaxClock=1)),
               ("v7-forge", B(V7=True, MaxForge=1, MaxVital=1, MaxFaults=0, MaxClock=1)),
               ("v7-forge-disc", B(V7=True, MaxForge=1, MaxVital=0, MaxFaults=0, MaxClock=0, MaxDisc=1))]
-        dr = [(m, "random", 5, 500) for m in ("v6tok", "v7")]
+        # sessions: reset() and reconnect on the same objects with datagrams of the old session still in flight
+        mc += [("v6tok-sessions", B(MaxVital=1, MaxFaults=1, MaxClock=0, MaxDisc=1, MaxResets=2)),
+               ("v7-sessions", B(V7=True, MaxVital=1, MaxFaults=1, MaxClock=0, MaxDisc=1, MaxResets=2))]
+        ex += [("v6tok-sessions", B(MaxVital=1, MaxFaults=1, MaxClock=0, MaxDisc=1, MaxResets=2)),
+               ("v7-sessions", B(V7=True, MaxVital=1, MaxFaults=1, MaxClock=0, MaxDisc=1, MaxResets=2))]
+        dr = [(m, "random", 5, 500) for m in ("v6tok", "v7")] + [(m, "sessions", 6, 300) for m in ("v6tok", "v7")]
         if not q:
             mc += [("v6tok-forge-L", B(MaxForge=1, MaxVital=2, MaxNV=1, MaxFaults=1, MaxClock=2)),
                    ("v7-forge-L", B(V7=True, MaxForge=2, MaxVital=1, MaxFaults=1, MaxClock=2))]
@@ -445,6 +473,10 @@ def plans(prop, tier):
                # every flag combination on compressible payloads: a side with a resend request pending sends data
                ("v7-rr-compress", B(V7=True, Senders={"c", "s"}, Sizes={40}, MaxVital=2, MaxVitalS=1, MaxNV=0, MaxFaults=1, MaxClock=0)),
                ("v6tok-rr-compress", B(Senders={"c", "s"}, Sizes={40}, MaxVital=2, MaxVitalS=1, MaxNV=0, MaxFaults=1, MaxClock=0))]
+        # close / connless while the callback refuses the datagram; Connection::new_accept_token
+        ex += [("v6tok-disc-cbfail", B(Sizes={0}, MaxVital=1, MaxConnless=1, MaxDisc=1, Reasons={0, 127}, MaxFaults=0, MaxClock=0, MaxFails=1, FailKs={1})),
+               ("v7-disc-cbfail", B(V7=True, Sizes={0}, MaxVital=1, MaxConnless=1, MaxDisc=1, Reasons={0, 127}, MaxFaults=0, MaxClock=0, MaxFails=1, FailKs={1})),
+               ("v6tok-accepttoken", B(MaxVital=1, MaxFaults=1, MaxClock=1, MaxAcceptTok=1))]
         dr = [(m, sc, 1, 0) for m in ("v6tok", "v7") for sc in ("smallchunks", "bigchunks", "fill")]
         if not q:
             ex += [("v6tok-limits-faults", B(Sizes={0, 1023}, MaxVital=2, MaxNV=1, MaxFaults=1, MaxClock=1)),
